@@ -145,12 +145,13 @@ package node
 //@   pure
 //@   ensures[C18.request.value] result1 == nil ==> result0 != nil
 //@ func github.com/lidofinance/dc4bc/client/types.NewOperation
-//@   assumed
+//@   safety C18
 //@   pure
 //@   ensures result != nil && fresh(result)
 //@ func (*github.com/lidofinance/dc4bc/fsm/state_machines.FSMInstance).Do
-//@   assumed
+//@   nosafety
 //@   modifies *
+//@   modifies $dos
 //@   epilogue $dos = ite(result2 == nil, old($dos) + 1, old($dos))
 //@   ensures result2 == nil ==> result0 != nil
 //@   ensures unchanged("BaseNodeService.SkipCommKeysVerification", "BaseNodeService.userName", "BaseNodeService.state", "BaseNodeService.storage", "BaseNodeService.ctx", "[]storage.Message", "types.ReDKG.Messages")
